@@ -181,7 +181,7 @@ func c17Simplify(r *engine.Run, g geom.Geometry, t float64) {
 			for k := 0; k+1 < len(kept); k++ {
 				pa, pb := ptOf(in[kept[k]]), ptOf(in[kept[k+1]])
 				for m := kept[k] + 1; m < kept[k+1]; m++ {
-					if d := distToLine(ptOf(in[m]), pa, pb); d > t*(1+1e-12)+1e-300 {
+					if d := distToLine(ptOf(in[m]), pa, pb); d > t*(1+1e-12)+1e-14*math.Max(math.Abs(in[m][0]), math.Abs(in[m][1]))+1e-300 {
 						bad("droppedVertexTooFar", fmt.Sprintf("vertex %v dropped although %g from the line through %v and %v (threshold %g); result %s", in[m], d, in[kept[k]], in[kept[k+1]], t, h.AsText()))
 						return
 					}
@@ -511,6 +511,17 @@ func c17Main(r *engine.Run) {
 			rot = append(rot, 1e3*(co*xy.X-si*xy.Y)+1e6, 1e3*(si*xy.X+co*xy.Y))
 		}
 		lines = append(lines, lineItem{geom.NewLineString(geom.NewSequence(rot, geom.DimXY)), "float image"})
+		if i%33 == 0 {
+			// far from unit magnitude: lengths, fractions and thresholds must scale with the input
+			for _, sc := range []float64{1e-100, 1e100} {
+				var im []float64
+				for k := 0; k < s.Length(); k++ {
+					xy := s.GetXY(k)
+					im = append(im, sc*(co*xy.X-si*xy.Y), sc*(si*xy.X+co*xy.Y))
+				}
+				lines = append(lines, lineItem{geom.NewLineString(geom.NewSequence(im, geom.DimXY)), fmt.Sprintf("float image at scale %g", sc)})
+			}
+		}
 	}
 	r.States.Add(int64(len(lines)))
 	if r.Parallel(len(lines), func(i int) {
